@@ -82,9 +82,29 @@ Definition named (c : ctx_table) (rf : regfile) (n : name) : outcome (name * Z) 
   match get_always c rf n with
   | Ret x => Ret (n, x) | Fail => Fail | Panic t => Panic t | OutOfFuel => OutOfFuel
   end.
-(* CpuContext::valid_registers / registers: REGISTERS, or the set's own members *)
+(* CpuContext::valid_registers / registers build `CpuRegisters { regs, context }` with
+   regs = Slice(REGISTERS.iter()) under All, Set(valid.iter()) under Some(valid); the iterator's
+   state is the list of names still to come (for a set: in its iteration order).
+   CpuRegisters::next: `let reg = regs.next()?; Some((reg, context.get_register_always(reg)))`. *)
+Definition cpu_iter_init (c : ctx_table) (v : validity) : list name :=
+  match v with VAll => ct_registers c | VSome s => s end.
+Definition cpu_iter_next (c : ctx_table) (rf : regfile) (st : list name) : outcome (option (name * Z) * list name) :=
+  match st with
+  | [] => Ret (None, [])
+  | r :: t => do x <- get_always c rf r; Ret (Some (r, x), t)
+  end.
+(* draining the iterator (what `.collect()` / a `for` loop does) *)
+Fixpoint cpu_iter_collect (fuel : nat) (c : ctx_table) (rf : regfile) (st : list name) : outcome (list (name * Z)) :=
+  match fuel with
+  | O => OutOfFuel
+  | S f => do r <- cpu_iter_next c rf st;
+           match r with
+           | (None, _) => Ret []
+           | (Some p, st') => do l <- cpu_iter_collect f c rf st'; Ret (p :: l)
+           end
+  end.
 Definition cpu_valid_registers (c : ctx_table) (rf : regfile) (v : validity) : outcome (list (name * Z)) :=
-  mapM (named c rf) (match v with VAll => ct_registers c | VSome s => s end).
+  let st := cpu_iter_init c v in cpu_iter_collect (S (length st)) c rf st.
 (* MinidumpContext::get_stack_pointer / get_instruction_pointer: the arm's body, evaluated.
    Field values are of their declared unsigned type, so a widening cast is the identity and
    a narrowing one truncates; `&&` / `||` / `if` evaluate only what Rust evaluates (an
